@@ -133,6 +133,44 @@ def fmethod(p: Project, ci: ClassInfo, name: str):
     return None
 
 
+def need(p: Project, ci: ClassInfo, name: str):
+    f = fmethod(p, ci, name)
+    if f is None:
+        raise AnalysisError(f"OFXClient.{name} not found")
+    return f
+
+
+def private_callers_only(p: Project, ci: ClassInfo, helper: str, allowed: str) -> bool:
+    """is the private method `helper` called (transitively through private helpers) only from `allowed`?"""
+    seen = set()
+    work = [helper]
+    while work:
+        h = work.pop()
+        if h in seen:
+            continue
+        seen.add(h)
+        for nm, fn in methods(ci):
+            if nm == h:
+                continue
+            calls = [c for c in own_nodes(fn) if isinstance(c, ast.Call) and isinstance(c.func, ast.Attribute) and c.func.attr == h and text(c.func.value) in ("self", "cls")]
+            if calls:
+                if nm == allowed:
+                    continue
+                if nm.startswith("_") and not nm.startswith("__"):
+                    work.append(nm)
+                else:
+                    return False
+    # nobody outside the class calls it
+    for name, mod in p.modules.items():
+        for qn, cls, fn in mod.functions():
+            if cls is not None and cls.name == ci.name and name == ci.module:
+                continue
+            for c in own_nodes(fn):
+                if isinstance(c, ast.Call) and isinstance(c.func, ast.Attribute) and c.func.attr == helper:
+                    return False
+    return True
+
+
 # --------------------------------------------------------------------------
 def n_r1_sinks(p: Project, rep: Report):
     rep.rule("N-R1", "network sinks (urlopen, opener.open, requests/Session calls, sockets, http.client) occur in ofxtools/Client.py only inside OFXClient.post_request; no global opener is installed anywhere in the package")
@@ -147,6 +185,10 @@ def n_r1_sinks(p: Project, rep: Report):
         nfn += 1
         sinks = sink_calls(fn, aliases, nattrs)
         if qn == "OFXClient.post_request":
+            total_sinks += len(sinks)
+            continue
+        if sinks and cls is not None and cls.name == "OFXClient" and qn.count(".") == 1 and fn.name.startswith("_") and private_callers_only(p, client_class(p), fn.name, "post_request"):
+            # a private transport helper reachable only through post_request is part of post_request
             total_sinks += len(sinks)
             continue
         for s in sinks:
@@ -181,9 +223,7 @@ def n_r2_dryrun(p: Project, rep: Report):
     for name, qn, n in callers:
         ok = name == CLIENT and qn == "OFXClient.download"
         rep.check("N-R2", f"{name}:{qn}->post_request", ok, "post_request is invoked outside download(): the dry-run gate does not cover this call" if not ok else "", f"{p.module(name).relpath}:{n.lineno}")
-    dl = ci.own_func("download")
-    if dl is None:
-        raise AnalysisError("OFXClient.download not found")
+    dl = need(p, ci, "download")
     if "dryrun" not in params_of(dl):
         raise AnalysisError("download has no dryrun parameter")
     cfg = CFG(dl)
@@ -204,8 +244,8 @@ def n_r2_dryrun(p: Project, rep: Report):
                 rep.check("N-R2", "download:dryrun-is-the-parameter", ok, "dryrun is re-bound before it is tested" if not ok else "", loc(p, n.stmt))
     # forwarding
     nfw = 0
-    for nm, fn in methods(ci):
-        if "dryrun" not in params_of(fn) or nm == "download":
+    for nm, fn0, fn in fmethods(p, ci):
+        if "dryrun" not in params_of(fn0) or nm == "download":
             continue
         cfg = CFG(fn)
         reach = Reaching(cfg)
@@ -221,14 +261,16 @@ def n_r2_dryrun(p: Project, rep: Report):
     rep.floor("N-R2", nfw, 5, "dryrun forwarding call sites")
 
 
-def credentialed(ci: ClassInfo):
+def credentialed(ci: ClassInfo, p: Project = None):
+    if p is not None:
+        return [(nm, ffn) for nm, fn, ffn in fmethods(p, ci) if {"dryrun", "skip_profile"} <= set(params_of(fn)) and not nm.startswith("_")]
     return [(nm, fn) for nm, fn in methods(ci) if {"dryrun", "skip_profile"} <= set(params_of(fn))]
 
 
 def n_r3_profile_lookup(p: Project, rep: Report):
     rep.rule("N-R3", "_get_service_urls (a network round trip) is unreachable in the credentialed requests when dryrun or skip_profile is set, reachable otherwise")
     ci = client_class(p)
-    fns = credentialed(ci)
+    fns = credentialed(ci, p)
     for nm, fn in fns:
         cfg = CFG(fn)
         look = cfg.nodes_calling(lambda c: isinstance(c.func, ast.Attribute) and c.func.attr in ("_get_service_urls", "request_profile", "_request_profile"))
@@ -286,7 +328,7 @@ def _sources(expr, node: Node, reach: Reaching, depth=8, seen=None) -> Set[str]:
 def n_r7_routing(p: Project, rep: Report):
     rep.rule("N-R7", "in each credentialed request the URL handed to download() is, branch by branch: self.url (and nothing else) under skip_profile, a value derived from _get_service_urls() and never self.url otherwise; download() posts to exactly the URL it was given (self.url only when none was given)")
     ci = client_class(p)
-    for nm, fn in credentialed(ci):
+    for nm, fn in credentialed(ci, p):
         cfg = CFG(fn)
         dls = cfg.nodes_calling(lambda c: isinstance(c.func, ast.Attribute) and c.func.attr == "download" and text(c.func.value) == "self")
         if not dls:
@@ -309,7 +351,7 @@ def n_r7_routing(p: Project, rep: Report):
                     why = f"with profile lookup the URL derives from {sorted(src)}; expected the value advertised by _get_service_urls(), never self.url or a constant: credentials would be sent to the wrong place"
                 rep.check("N-R7", f"{nm}:url-under-{label}", ok, why if not ok else "", loc(p, call))
     # download: url -> post_request
-    dl = ci.own_func("download")
+    dl = need(p, ci, "download")
     cfg = CFG(dl)
     reach = Reaching(cfg, edge_filter=assume({"dryrun": False}))
     for node in cfg.nodes_calling(lambda c: isinstance(c.func, ast.Attribute) and c.func.attr == "post_request"):
@@ -341,9 +383,7 @@ def n_r7_routing(p: Project, rep: Report):
 def n_r7c_service_urls(p: Project, rep: Report):
     rep.rule("N-R7c", "_get_service_urls: every URL in the mapping it returns is the .url of a message set of the profile response it has just requested and parsed (never the configured URL or a constant)")
     ci = client_class(p)
-    fn = ci.own_func("_get_service_urls")
-    if fn is None:
-        raise AnalysisError("OFXClient._get_service_urls not found")
+    fn = need(p, ci, "_get_service_urls")
     vals = []
     for n in ast.walk(fn):
         if isinstance(n, ast.DictComp):
@@ -359,10 +399,19 @@ def n_r7c_service_urls(p: Project, rep: Report):
         ok = isinstance(v, ast.Attribute) and v.attr == "url" and isinstance(v.value, ast.Name) and v.value.id != "self"
         rep.check("N-R7c", f"_get_service_urls:value({text(v)})", ok, f"a service URL is taken from {text(v)}, not from a message set of the profile" if not ok else "", loc(p, node))
     defs = local_defs(fn)
-    chain_ok = any(d.kind == "assign" and text(d.value).startswith("self.request_profile(") for d in defs.get("profile", [])) and any(isinstance(c, ast.Call) and text(c.func).endswith(".parse") and c.args and text(c.args[0]) == "profile" for c in own_nodes(fn))
+    from .match import Expander as _Ex
+
+    gx = _Ex(fn)
+    chain_ok = any(isinstance(c, ast.Call) and text(c.func).endswith(".parse") and c.args and gx.t(c.args[0]).startswith("self.request_profile(") for c in own_nodes(fn))
     rep.check("N-R7c", "_get_service_urls:from-requested-profile", chain_ok, "" if chain_ok else "the URLs do not come from parsing the profile just requested", loc(p, fn))
-    ml = [d for d in defs.get("msgsetlist", []) if d.kind == "assign"]
-    ok = bool(ml) and all(text(d.value).endswith(".msgsetlist") for d in ml)
+    iters = {text(v.value) for v, _n in vals if isinstance(v, ast.Attribute) and isinstance(v.value, ast.Name)}
+    ml = []
+    for x in ast.walk(fn):
+        if isinstance(x, (ast.For, ast.comprehension)) and isinstance(x.target, ast.Name) and x.target.id in iters:
+            ml.append(gx.t(x.iter))
+        if isinstance(x, ast.Assign) and isinstance(x.targets[0], ast.Name) and x.targets[0].id in iters and isinstance(x.value, ast.Subscript):
+            ml.append(gx.t(x.value.value))
+    ok = bool(ml) and all(v.endswith(".msgsetlist") or ".msgsetlist" in v for v in ml)
     rep.check("N-R7c", "_get_service_urls:message-sets-of-the-profile", ok, "" if ok else "message sets are not read from the profile's MSGSETLIST", loc(p, fn))
     rets = [r for r in own_nodes(fn) if isinstance(r, ast.Return)]
     ok = bool(rets) and all(r.value is not None and text(r.value) == "urls" for r in rets)
@@ -378,9 +427,7 @@ def _bind(call: ast.Call, names: List[str]) -> Dict[str, ast.AST]:
 def n_r4_post(p: Project, rep: Report):
     rep.rule("N-R4", "post_request: on every path exactly one request is issued; its method is the literal POST, its body the serialized_request parameter, its headers self.http_headers, its URL the url parameter - on each transport")
     ci = client_class(p)
-    fn = ci.own_func("post_request")
-    if fn is None:
-        raise AnalysisError("OFXClient.post_request not found")
+    fn = need(p, ci, "post_request")
     aliases = net_aliases(p)
     sinks = sink_calls(fn, aliases, net_attributes(ci, aliases))
     cfg = CFG(fn)
@@ -500,11 +547,26 @@ def n_r5_headers(p: Project, rep: Report):
     if fn is None:
         raise AnalysisError("OFXClient.http_headers not found")
     rets = [r for r in own_nodes(fn) if isinstance(r, ast.Return)]
-    if not rets or not all(isinstance(r.value, ast.Dict) for r in rets):
-        raise AnalysisError("N-R5: http_headers does not return a dict literal")
+    if not rets:
+        raise AnalysisError("N-R5: http_headers returns nothing")
     for r in rets:
         d = {}
-        for k, v in zip(r.value.keys, r.value.values):
+        lit = r.value
+        if isinstance(lit, ast.Name):
+            # a dict filled key by key: <name> = {...} ; <name>[k] = v ...
+            nm = lit.id
+            init = [st.value for st in own_statements(fn) if isinstance(st, (ast.Assign, ast.AnnAssign)) and any(isinstance(t, ast.Name) and t.id == nm for t in (st.targets if isinstance(st, ast.Assign) else [st.target])) and isinstance(st.value, (ast.Dict, ast.Call))]
+            if len(init) != 1:
+                raise AnalysisError("N-R5: http_headers builds its result in an unrecognised way")
+            lit = init[0] if isinstance(init[0], ast.Dict) else ast.Dict(keys=[ast.Constant(value=k.arg) for k in init[0].keywords], values=[k.value for k in init[0].keywords])
+            lit = ast.Dict(keys=list(lit.keys), values=list(lit.values))
+            for st in own_statements(fn):
+                if isinstance(st, ast.Assign) and isinstance(st.targets[0], ast.Subscript) and text(st.targets[0].value) == nm:
+                    lit.keys.append(st.targets[0].slice)
+                    lit.values.append(st.value)
+        if not isinstance(lit, ast.Dict):
+            raise AnalysisError("N-R5: http_headers does not return a dict")
+        for k, v in zip(lit.keys, lit.values):
             if isinstance(k, ast.Constant):
                 d[str(k.value).lower()] = v
         ct = _fold(d.get("content-type"), fn) if "content-type" in d else None
@@ -535,10 +597,10 @@ def n_r5_headers(p: Project, rep: Report):
 def n_r6_placeholder(p: Project, rep: Report):
     rep.rule("N-R6", "_request_profile signs on with the anonymous placeholder for both user id and password (never self.userid or a caller-supplied secret), puts that sign-on in the request it sends, and forwards its url parameter")
     ci = client_class(p)
-    fn = ci.own_func("_request_profile")
+    fn = need(p, ci, "_request_profile")
     so = ci.own_func("signon")
-    if fn is None or so is None:
-        raise AnalysisError("_request_profile / signon not found")
+    if so is None:
+        raise AnalysisError("signon not found")
     cfg = CFG(fn)
     reach = Reaching(cfg)
     sparams = params_of(so)[1:]
@@ -614,7 +676,7 @@ def n_r8_cookies(p: Project, rep: Report):
     d = ci.lookup("persist_cookies")
     rep.check("N-R8", "persist_cookies:default-True", d is True, f"class default of persist_cookies is {d!r}: cookies set by the profile response are not replayed", loc(p, ci.node))
     # transports attach the jar
-    fn = ci.own_func("post_request")
+    fn = need(p, ci, "post_request")
     aliases = net_aliases(p)
     pcfg = CFG(fn)
     flt = assume({"self.persist_cookies": True})
@@ -651,4 +713,7 @@ def n_r8_cookies(p: Project, rep: Report):
                                         connected = True
                                     if isinstance(d.value, ast.AST) and "self.cookiejar" in text(d.value):
                                         connected = True
-            rep.check("N-R8", f"post_request:{text(s.func)}:jar-on-sending-object", connected, "self.cookiejar is referenced but not attached to the object that sends the request" if not connected else "", loc(p, s))
+            if connected:
+                rep.check("N-R8", f"post_request:{text(s.func)}:jar-on-sending-object", True, "", loc(p, s))
+            else:
+                rep.note(f"N-R8 undecided: could not connect self.cookiejar to the object behind {text(s.func)}")
